@@ -289,4 +289,25 @@ theorem Full_no_panic_lexer_partial (h1 : Full_rAttr_statement) (h2 : Full_rMatc
     · exact absurd hx (h1 cfg settings chunks hlex)
     · exact absurd hx (h2 cfg settings chunks hlex)
 
+/-! ### non-vacuity -/
+
+example : LexCfg obsCfg := ⟨_, List.mem_cons_self, Or.inr (Or.inr rfl)⟩
+example : LexCfg failCfg := ⟨_, List.mem_cons_self, Or.inr (Or.inr rfl)⟩
+
+/-- a lexer-mode configuration that mutates, needs the attributes for matching (`[a]`: `InfoRequest`) and
+registers end-tag handlers: `auxCfg`'s selector entry plus `on_end_tag`, and a document-level comment observer -/
+def lexAuxCfg : Cfg :=
+  { sels := [([⟨[.attrExists [97]], []⟩],
+      { element := some [([.setAttribute [99] [100], .after (.buffer [33] .html), .onEndTag [.mut (.before (.buffer [63] .html))]], false)] })],
+    docs := [{ comments := some [([], false)] }] }
+
+example : LexCfg lexAuxCfg := ⟨_, List.mem_cons_self, Or.inr (Or.inl rfl)⟩
+
+/-- … its run on `<div a=b>x<` , `/div>y`: both writes and `end` succeed, the end-tag handler ran (`?` before
+`</div>`), the deferred `after` content follows the end tag -/
+example : (run (genWorld lexAuxCfg) (Rewriter.new (genWorld lexAuxCfg) (FullSt.init lexAuxCfg) {}) sampleChunks).2 =
+    [.ok, .ok, .ok] := by decide +kernel
+example : sinkBytes (run (genWorld lexAuxCfg) (Rewriter.new (genWorld lexAuxCfg) (FullSt.init lexAuxCfg) {}) sampleChunks).1.sink
+    = [60,100,105,118,32,97,61,98,32,99,61,34,100,34,62,120,63,60,47,100,105,118,62,33,121] := by decide +kernel
+
 end LolHtml.Thm.Full
